@@ -20,14 +20,14 @@ import (
 )
 
 type Obligation struct {
-	Name    string
-	Fn      string
-	Class   string
-	Asserts []*Term
-	Goal    *Term
-	Path    string
-	Note    string
-	Inputs  map[string]string // param name -> symbol (for replay)
+	Name       string
+	Fn         string
+	Class      string
+	Asserts    []*Term
+	Goal       *Term
+	Path       string
+	Note       string
+	Inputs     map[string]string // param name -> symbol (for replay)
 	AxiomOrder int
 }
 
@@ -39,34 +39,34 @@ type loopInfo struct {
 }
 
 type Exec struct {
-	eng         *Engine
-	fn          *ssa.Function
-	fc          *FuncContract
-	mode        string
-	obls        []*Obligation
-	heapSorts   map[string]string
-	entryHeap   map[string]*Term
-	entryAlloc  *Term
-	entryAsserts *assertNode
-	params      map[string]Val
-	paramOrder  []string
-	paths       int
-	returns     int
-	unsupported map[string]bool
-	uncontracted map[string]bool
-	inlined     map[string]bool
+	eng           *Engine
+	fn            *ssa.Function
+	fc            *FuncContract
+	mode          string
+	obls          []*Obligation
+	heapSorts     map[string]string
+	entryHeap     map[string]*Term
+	entryAlloc    *Term
+	entryAsserts  *assertNode
+	params        map[string]Val
+	paramOrder    []string
+	paths         int
+	returns       int
+	unsupported   map[string]bool
+	uncontracted  map[string]bool
+	inlined       map[string]bool
 	contractsUsed map[string]bool
-	loopCache   map[*ssa.Function]map[*ssa.BasicBlock]*loopInfo
-	nameCache   map[*ssa.Function]map[ssa.Instruction]string
-	maxPaths    int
-	aborted     string
-	checkFrames bool
-	assignLocs  []assignLoc
-	coverDone   map[string]bool
-	curSite     string
-	loadBound   *Term
-	inSpec      bool
-	entryLocks  map[string]string
+	loopCache     map[*ssa.Function]map[*ssa.BasicBlock]*loopInfo
+	nameCache     map[*ssa.Function]map[ssa.Instruction]string
+	maxPaths      int
+	aborted       string
+	checkFrames   bool
+	assignLocs    []assignLoc
+	coverDone     map[string]bool
+	curSite       string
+	loadBound     *Term
+	inSpec        bool
+	entryLocks    map[string]string
 }
 
 type assignLoc struct {
@@ -474,6 +474,15 @@ func (x *Exec) runBlock(s *State, b *ssa.BasicBlock, pred *ssa.BasicBlock, k con
 			return
 		}
 		// entry
+		for _, in := range b.Instrs {
+			if nx, ok := in.(*ssa.Next); ok && !nx.IsString {
+				if rg, ok := nx.Iter.(*ssa.Range); ok {
+					if c, has := fr.vars["iter$"+rg.Name()]; has {
+						fr.vars[fmt.Sprintf("iter%d", li.ordinal)] = c
+					}
+				}
+			}
+		}
 		if spec != nil {
 			for _, inv := range spec.Invariants {
 				t, err := x.specBool(s, fr, inv.E, nil)
